@@ -123,12 +123,15 @@ unsafe fn evict_one() {
 
 unsafe impl GlobalAlloc for Quarantine {
     unsafe fn alloc(&self, l: Layout) -> *mut u8 {
+        big_trap(l.size());
         System.alloc(l)
     }
     unsafe fn alloc_zeroed(&self, l: Layout) -> *mut u8 {
+        big_trap(l.size());
         System.alloc_zeroed(l)
     }
     unsafe fn realloc(&self, p: *mut u8, l: Layout, n: usize) -> *mut u8 {
+        big_trap(n);
         System.realloc(p, l, n)
     }
     unsafe fn dealloc(&self, p: *mut u8, l: Layout) {
@@ -157,6 +160,20 @@ unsafe impl GlobalAlloc for Quarantine {
         set_maybe_rebuild();
         BYTES.fetch_add(l.size(), Ordering::Relaxed);
         unlock();
+    }
+}
+
+/// capacity probes (C14): a child process that must not really allocate gigabytes arms this trap;
+/// the first request of 1 GiB or more ends the process with an exit code that tells the parent how
+/// much was asked for (77 = exactly 2^30 pointers, 78 = any other size)
+pub static BIG_TRAP: std::sync::atomic::AtomicBool = std::sync::atomic::AtomicBool::new(false);
+extern "C" {
+    fn _exit(code: i32) -> !;
+}
+#[inline]
+fn big_trap(size: usize) {
+    if size >= (1 << 30) && BIG_TRAP.load(Ordering::Relaxed) {
+        unsafe { _exit(if size == (1usize << 30) * std::mem::size_of::<usize>() { 77 } else { 78 }) }
     }
 }
 
